@@ -4,6 +4,7 @@ package vh
 
 import (
 	"bufio"
+	"bytes"
 	"encoding/json"
 	"math/rand"
 	"os"
@@ -62,6 +63,8 @@ func (t *Tracer) Emit(ev map[string]any) {
 	if err != nil {
 		panic(err)
 	}
+	// TLC's JSON reader has no null: nil slices / maps are written as empty arrays
+	b = bytes.ReplaceAll(b, []byte(":null"), []byte(":[]"))
 	t.w.Write(b)
 	t.w.WriteByte('\n')
 	if t.Sync {
